@@ -33,7 +33,7 @@ from simkit.world import (  # noqa: E402
 )
 
 PROPERTY = "C08"
-RUNS = {"quick": 7_000, "thorough": 600_000}
+RUNS = {"quick": 7_000, "thorough": 2_000_000}
 WALL = {"quick": 55, "thorough": 1500}
 BATCH = {"quick": 125, "thorough": 1000}
 SELFTEST_RUNS = 24
